@@ -146,82 +146,152 @@ func runC15(c *Ctx) {
 		isGR := func(ev *Ev) bool { return ev.Label == "call:"+fnName(gr) }
 		isAdd := func(ev *Ev) bool { return ev.Label == "call:(*metadata.Metadata).AddInt" }
 		isCT := func(ev *Ev) bool { return ev.Label == "call:"+fnName(checkTS) }
-		e := &PPA{MaxVisits: 3, TraceBranches: true,
-			Inline: func(fr *Frame, call ssa.CallInstruction, callee *ssa.Function) bool { return callee.Parent() == GU },
-			Watch: func(ev *Ev) bool {
-				return clientCall(ev) || isGU(ev) || isGR(ev) || isAdd(ev) || isCT(ev) || ev.Label == "if"
-			}}
-		e.Run(GU)
-		c.Paths += len(e.Paths)
-		c.Scen++
-		if e.Overflow {
-			c.Unknown("C15.one-category", fnName(GU), "paths", "", "overflow")
-		}
 		nAcc, nHook := 0, 0
-		for i := range e.Paths {
-			p := &e.Paths[i]
-			if p.End != "return" {
-				continue
+		// the notification's atomic flag is one fact however often and wherever it is tested (field or getter,
+		// dispatch or helper): both values are replayed
+		for _, atomicArm := range []bool{false, true} {
+			atomicArm := atomicArm
+			e := &PPA{MaxVisits: 3, TraceBranches: true,
+				Inline: func(fr *Frame, call ssa.CallInstruction, callee *ssa.Function) bool { return callee.Parent() == GU },
+				Cond: func(e *PPA, st *State, rv RV) (bool, bool) {
+					r := e.Resolve(st, rv)
+					var recv RV
+					switch v := r.V.(type) {
+					case *ssa.UnOp:
+						if !loadOfField(v, a.fAtomic) {
+							return false, false
+						}
+						recv = RV{r.F, v.X.(*ssa.FieldAddr).X}
+					case *ssa.Call:
+						if calleeName(&v.Call) != "(*proto/gnmi.Notification).GetAtomic" {
+							return false, false
+						}
+						recv = RV{r.F, v.Call.Args[0]}
+					default:
+						return false, false
+					}
+					if e.Resolve(st, recv).V == ssa.Value(param(GU, 1)) {
+						return atomicArm, true
+					}
+					return false, false
+				},
+				Watch: func(ev *Ev) bool {
+					return clientCall(ev) || isGU(ev) || isGR(ev) || isAdd(ev) || isCT(ev) || ev.Label == "if"
+				}}
+			e.Run(GU)
+			c.Paths += len(e.Paths)
+			c.Scen++
+			if e.Overflow {
+				c.Unknown("C15.one-category", fnName(GU), "paths", "", "overflow")
 			}
-			// strip branch events for the counter/feed pattern
-			var seq []*Ev
-			accepted := false
-			hook := false
-			for j := range p.Trace {
-				ev := &p.Trace[j]
-				if ev.Label == "if" {
-					if b, ok := ev.Args[0].V.(*ssa.BinOp); ok && isNilConst(b.Y) {
-						if ex, ok := b.X.(*ssa.Extract); ok && ex.Index == 1 {
-							if call, ok := ex.Tuple.(*ssa.Call); ok && staticCallee(&call.Call) == gu {
-								errNonNil := ev.Taken == (b.Op == token.NEQ)
-								if !errNonNil {
-									accepted = true
+			for i := range e.Paths {
+				p := &e.Paths[i]
+				if p.End != "return" {
+					continue
+				}
+				// strip branch events for the counter/feed pattern
+				var seq []*Ev
+				accepted := false
+				hook := false
+				for j := range p.Trace {
+					ev := &p.Trace[j]
+					if ev.Label == "if" {
+						if b, ok := ev.Args[0].V.(*ssa.BinOp); ok && isNilConst(b.Y) {
+							if ex, ok := b.X.(*ssa.Extract); ok && ex.Index == 1 {
+								if call, ok := ex.Tuple.(*ssa.Call); ok && staticCallee(&call.Call) == gu {
+									errNonNil := ev.Taken == (b.Op == token.NEQ)
+									if !errNonNil {
+										accepted = true
+									}
 								}
 							}
 						}
-					}
-					// a decision taken inside the exit hook: the function GnmiUpdate defers (a literal or a method)
-					if ev.F != nil && ev.F.Fn.Parent() == GU {
-						hook = true
-					}
-					if ev.F != nil && ev.F.Call != nil {
-						if d, isDefer := ev.F.Call.(*ssa.Defer); isDefer && d.Parent() == GU {
+						// a decision taken inside the exit hook: the function GnmiUpdate defers (a literal or a method)
+						if ev.F != nil && ev.F.Fn.Parent() == GU {
 							hook = true
 						}
-					}
-					continue
-				}
-				seq = append(seq, ev)
-			}
-			for j, ev := range seq {
-				if !clientCall(ev) {
-					continue
-				}
-				// a feed call for an updated leaf is immediately preceded by one UpdateCount add
-				if ex, ok := ev.Args[0].V.(*ssa.Extract); ok {
-					if call, ok := ex.Tuple.(*ssa.Call); ok && staticCallee(&call.Call) == gu {
-						okU := j > 0 && isAdd(seq[j-1]) && j > 1 && isGU(seq[j-2])
-						if okU {
-							k, _ := constString(seq[j-1].Args[1].V)
-							okU = names[k] == "UpdateCount"
+						if ev.F != nil && ev.F.Call != nil {
+							if d, isDefer := ev.F.Call.(*ssa.Defer); isDefer && d.Parent() == GU {
+								hook = true
+							}
 						}
-						c.Check(okU, "C15.one-category", fnName(GU), "accepted update: one UpdateCount add between gnmiUpdate and the feed call", P.Pos(posOf(ev.In)), "path: "+p.String())
+						continue
+					}
+					seq = append(seq, ev)
+				}
+				for j, ev := range seq {
+					if !clientCall(ev) {
+						continue
+					}
+					// a feed call for an updated leaf is immediately preceded by one UpdateCount add
+					if ex, ok := ev.Args[0].V.(*ssa.Extract); ok {
+						if call, ok := ex.Tuple.(*ssa.Call); ok && staticCallee(&call.Call) == gu {
+							okU := j > 0 && isAdd(seq[j-1]) && j > 1 && isGU(seq[j-2])
+							if okU {
+								k, _ := constString(seq[j-1].Args[1].V)
+								okU = names[k] == "UpdateCount"
+							}
+							c.Check(okU, "C15.one-category", fnName(GU), "accepted update: one UpdateCount add between gnmiUpdate and the feed call", P.Pos(posOf(ev.In)), "path: "+p.String())
+							// the amount: every update the accepted notification carries is counted - one for a single-update
+							// notification (a clone made per update, or the arm the dispatch reserves for exactly one update),
+							// the number of its updates when the caller's whole notification was stored as one unit (atomic)
+							if okU && len(seq[j-1].Args) >= 3 && len(seq[j-2].Args) >= 2 {
+								nParam := ssa.Value(param(GU, 1))
+								whole := frameResolve(seq[j-2].Args[1]).V == nParam
+								// the notification parameter lives in a cell when a deferred closure captures it
+								isN := func(f *Frame, v ssa.Value) bool {
+									r := frameResolve(RV{f, v})
+									if u, ok := r.V.(*ssa.UnOp); ok && u.Op == token.MUL {
+										if al, ok := u.X.(*ssa.Alloc); ok {
+											if sv := singleStore(al); sv != nil {
+												r = frameResolve(RV{r.F, sv})
+											}
+										}
+									}
+									return r.V == nParam
+								}
+								amt := frameResolve(seq[j-1].Args[2]).V
+								one, isOne := constInt(amt)
+								isLen := false
+								x := amt
+								for k := 0; k < 4; k++ {
+									if cvt, ok := x.(*ssa.Convert); ok {
+										x = cvt.X
+									}
+								}
+								if lc, ok := x.(*ssa.Call); ok {
+									if la, ok := lenArg(lc); ok {
+										la = unwrap(la)
+										if gc, ok := la.(*ssa.Call); ok && calleeName(&gc.Call) == "(*proto/gnmi.Notification).GetUpdate" && isN(seq[j-1].Args[2].F, gc.Call.Args[0]) {
+											isLen = true
+										}
+										if u, ok := la.(*ssa.UnOp); ok && u.Op == token.MUL {
+											if fa, ok := u.X.(*ssa.FieldAddr); ok && vname(fieldOf(fa)) == "Update" && isN(seq[j-1].Args[2].F, fa.X) {
+												isLen = true
+											}
+										}
+									}
+								}
+								okAmt := (isOne && one == 1 && !(whole && atomicArm)) || (isLen && whole)
+								c.Check(okAmt, "C15.one-category", fnName(GU), "accepted update: UpdateCount grows by the number of updates the stored notification carries", P.Pos(posOf(seq[j-1].In)), fmt.Sprintf("amount %s; whole notification=%v atomic arm=%v; path: %s", Expr(amt), whole, atomicArm, pathNoIf(p)))
+							}
+						}
 					}
 				}
-			}
-			// empty arms
-			if len(seq) > 0 && !p.Has(isGU) && !p.Has(isGR) {
-				evs := addIntEvents(p, names)
-				c.Check(len(evs) == 1 && evs[0] == "EmptyCount:1", "C15.one-category", fnName(GU), "empty notification counts as empty only", P.Pos(GU.Pos()), strings.Join(evs, ","))
-			}
-			// latest timestamp hook
-			if hook {
-				nHook++
-				has := p.Has(isCT)
-				if accepted {
-					nAcc++
+				// empty arms
+				if len(seq) > 0 && !p.Has(isGU) && !p.Has(isGR) {
+					evs := addIntEvents(p, names)
+					c.Check(len(evs) == 1 && evs[0] == "EmptyCount:1", "C15.one-category", fnName(GU), "empty notification counts as empty only", P.Pos(GU.Pos()), strings.Join(evs, ","))
 				}
-				c.Check(has == accepted, "C15.latest", fnName(GU), "checkTimestamp at exit iff an update was accepted", P.Pos(GU.Pos()), fmt.Sprintf("accepted=%v checkTimestamp called=%v; path: %s", accepted, has, pathNoIf(p)))
+				// latest timestamp hook
+				if hook {
+					nHook++
+					has := p.Has(isCT)
+					if accepted {
+						nAcc++
+					}
+					c.Check(has == accepted, "C15.latest", fnName(GU), "checkTimestamp at exit iff an update was accepted", P.Pos(GU.Pos()), fmt.Sprintf("accepted=%v checkTimestamp called=%v; path: %s", accepted, has, pathNoIf(p)))
+				}
 			}
 		}
 		c.Floor("C15.latest/hooked-paths", nHook, 4)
